@@ -9,6 +9,7 @@ package main
 import (
 	"fmt"
 	"hash/fnv"
+	"net/url"
 	"os"
 	"strconv"
 	"strings"
@@ -441,6 +442,68 @@ func concHandler(item string, replay []int, isReplay bool, journal func([]int)) 
 	return mc.ItemResult{Item: item, Stats: st, Violation: v}
 }
 
+// recSinks collects the lines written through the registered scheme c11rec://<id>.
+var recSinks = map[string]*recSink{}
+
+type recSink struct{ lines int }
+
+func (r *recSink) Write(p []byte) (int, error) {
+	r.lines += strings.Count(string(p), "\n")
+	return len(p), nil
+}
+func (r *recSink) Sync() error  { return nil }
+func (r *recSink) Close() error { return nil }
+
+type fixedClock struct{ t time.Time }
+
+func (c fixedClock) Now() time.Time                         { return c.t }
+func (c fixedClock) NewTicker(d time.Duration) *time.Ticker { return time.NewTicker(d) }
+
+// configBuiltSamplers: the sampler a Config builds from SamplingConfig{Initial, Thereafter}
+// must admit exactly "the first Initial, then every Thereafter-th" (tick: one second) -
+// every pair Initial, Thereafter in 0..4 with 14 same-key entries at one instant, the
+// decisions seen by the Hook and the number of lines reaching the sink.
+func configBuiltSamplers(run *ev.Run) (evals int64) {
+	_ = zap.RegisterSink("c11rec", func(u *url.URL) (zap.Sink, error) {
+		s := &recSink{}
+		recSinks[u.Host] = s
+		return s, nil
+	})
+	for n := 0; n <= 4; n++ {
+		for m := 0; m <= 4; m++ {
+			id := fmt.Sprintf("s%d-%d", n, m)
+			var hook []zapcore.SamplingDecision
+			cfg := zap.NewProductionConfig()
+			cfg.OutputPaths = []string{"c11rec://" + id}
+			cfg.ErrorOutputPaths = []string{"c11rec://" + id + "e"}
+			cfg.Sampling = &zap.SamplingConfig{Initial: n, Thereafter: m, Hook: func(_ zapcore.Entry, d zapcore.SamplingDecision) { hook = append(hook, d) }}
+			l, err := cfg.Build(zap.WithClock(fixedClock{time.Unix(1700000000, 0)}))
+			if err != nil {
+				ev.ToolError("Config.Build: %v", err)
+			}
+			const total = 14
+			want := 0
+			var wantHook []zapcore.SamplingDecision
+			for i := 1; i <= total; i++ {
+				l.Info("same message")
+				evals++
+				admit := i <= n || (m > 0 && (i-n)%m == 0)
+				if admit {
+					want++
+					wantHook = append(wantHook, zapcore.LogSampled)
+				} else {
+					wantHook = append(wantHook, zapcore.LogDropped)
+				}
+			}
+			got := recSinks[id].lines
+			if got != want || fmt.Sprint(hook) != fmt.Sprint(wantHook) {
+				run.Report(fmt.Sprintf("config:sampling:initial=%d:thereafter=%d", n, m), fmt.Sprintf("Config{Sampling: {Initial: %d, Thereafter: %d}}.Build(): %d same-key entries at one instant: %d lines reached the sink, want %d; hook decisions %v, want %v (1 = dropped, 2 = sampled)", n, m, total, got, want, hook, wantHook), map[string]any{"initial": n, "thereafter": m})
+			}
+		}
+	}
+	return
+}
+
 func main() {
 	mc.MaybeWorker(concHandler)
 	run := ev.Start("C11", "model_checking")
@@ -503,6 +566,7 @@ func main() {
 	})
 	deepSeqs := dseqs.Load()
 
+	cfgEvals := configBuiltSamplers(run)
 	var items []string
 	for _, mode := range []string{"inwindow", "straddle"} {
 		for n := 0; n <= 2; n++ {
@@ -549,16 +613,17 @@ func main() {
 			map[string]any{"config": "first=1 thereafter=2 tick=10ns", "sequence": "(info,\"a\",dt=0) (info,\"" + collider + "\",dt=9) (info,\"a\",dt=10)"},
 			map[string]any{"concurrent_item": items[0]},
 		},
-		"exhaustive":             sum.Exhaustive,
-		"sequential_sequences":   seqs.Load(),
-		"sequential_decisions":   steps.Load(),
-		"sequence_length":        maxLen,
-		"deep_sequence_length":   deepLen,
-		"deep_alphabet":          "keys (info,a) (info,collider-of-a) (warn,a) x deltas {0, tick-1, tick, -1}",
-		"deep_sequences":         deepSeqs,
-		"configurations":         len(cfgs),
-		"concurrent_drivers":     len(items),
-		"concurrent_schedules":   sum.Execs,
-		"concurrent_max_threads": sum.MaxThreads,
+		"exhaustive":                   sum.Exhaustive,
+		"sequential_sequences":         seqs.Load(),
+		"sequential_decisions":         steps.Load(),
+		"sequence_length":              maxLen,
+		"deep_sequence_length":         deepLen,
+		"deep_alphabet":                "keys (info,a) (info,collider-of-a) (warn,a) x deltas {0, tick-1, tick, -1}",
+		"deep_sequences":               deepSeqs,
+		"configurations":               len(cfgs),
+		"config_built_sampler_entries": cfgEvals,
+		"concurrent_drivers":           len(items),
+		"concurrent_schedules":         sum.Execs,
+		"concurrent_max_threads":       sum.MaxThreads,
 	})
 }
